@@ -177,6 +177,10 @@ pub fn check_quant_t<T: QEl>(c: &QCase) -> CheckResult {
         if let Err(e) = run.after.guards_intact() {
             fail!("guard", "{}", e);
         }
+        let before: Vec<T> = c.data.iter().map(|&v| T::from_abs(v)).collect();
+        if let Err(e) = lanes_preserved(&before, &run.after.logical(), &c.shape, c.axis) {
+            fail!("multiset", "{}", e);
+        }
     }
     // non-trivial: lane length >= 3, some lane not all equal, and lo != hi or a boundary q
     let varied = lanes.iter().any(|l| l.first().map(|f| !l.iter().all(|x| x.eqv(f))).unwrap_or(false));
